@@ -71,10 +71,6 @@ c.finish(
         "hook /repo/verif_c01.go (build tag verif): VerifParseObjectsPos = newScanner + the real ReadArray; VerifSetLimits",
     ],
     partial=[
-        "limits_reject_partial / limits_reject_array: rejection at the limit is proved for strings (literal form), names "
-        "and arrays without references, for all inputs; for arrays with references, dictionaries and nesting depth the "
-        "full statement (Definition limits_reject_full) is only checked on instances (Examples limits_reject_array_ex/"
-        "_dict/_depth) and by the harness with shrunk limits",
         "real_rt / real_value_rt: a real is its decimal token; float<->text is the external hypothesis H-float",
     ],
 )
